@@ -500,6 +500,39 @@ theorem winnerOf_spec (snap : Libcons.Snapshot) (evs : List EvidenceV) (h : winn
       · rw [← group_eq evs e0.2 hm, heq]
         exact hc
 
+/-! ### the processed set only grows -/
+
+theorem attest_processed_mono (s : St) (id : Nat) (w : Winner) (h : Nat) (hh : h ∈ s.processed) :
+    h ∈ (attest s id w).1.processed := by
+  have ho := attest_outcome s id w
+  generalize attest s id w = r at ho
+  cases ho with
+  | unchanged r hr => exact hh
+  | errorHandled => exact hh
+  | rejected p r hw hr => exact List.mem_cons_of_mem _ hh
+  | accepted m p ce hm hw hrc hproc hv hs => exact List.mem_cons_of_mem _ hh
+
+theorem step_processed_mono (s : St) (op : Op) (h : Nat) (hh : h ∈ s.processed) :
+    h ∈ (step s op).processed := by
+  cases op with
+  | enqueue a vs sigs => exact hh
+  | update m =>
+    simp only [step]
+    split
+    · exact hh
+    · exact hh
+  | remove id => exact hh
+  | setChain c => exact hh
+  | attest id w => exact attest_processed_mono s id w h hh
+  | attestEv id snap evs => exact attest_processed_mono s id (winnerOf snap evs) h hh
+
+theorem run_processed_mono : ∀ (ops : List Op) (s : St) (h : Nat), h ∈ s.processed →
+    h ∈ (run s ops).processed
+  | [], _, _, hh => hh
+  | op :: ops, s, h, hh => run_processed_mono ops (step s op) h (step_processed_mono s op h hh)
+
+theorem upData_up (bc ctor : Bytes) (cid : Nat) : upData (.up bc ctor cid) = bc ++ ctor := rfl
+
 end Lemmas
 
 /-! ## Property theorems (C07) -/
@@ -824,6 +857,132 @@ theorem early_evidence_is_processed (m : QMsg) (f : SLCFields) (data : Bytes)
   · rintro ⟨i, h1, h2, h3⟩
     exact ⟨_, i, rfl, h1, h2, h3⟩
 
+/-- **processed_tx_rejected_any_encoding.** "The same remote transaction": the used-transaction set
+is keyed by the transaction HASH, so the serialization the evidence bytes use (`TxProof.enc`:
+canonical, or the EIP-4844 network form with any blob sidecar), the receipt attached to it and
+everything else in the proof are irrelevant: whatever proof `q` carries a transaction whose hash is
+in the set is never accepted, for any message. -/
+theorem processed_tx_rejected_any_encoding (s : St) (id : Nat) (p q : TxProof) (hq : q.hash = p.hash)
+    (h : p.hash ∈ s.processed) : (attest s id (.tx q)).2 ≠ .ok :=
+  processed_tx_rejected s id q (by rw [hq]; exact h)
+
+/-- **used_tx_never_accepted_again.** C07, "the same remote transaction is never accepted for a
+second message", as a statement about histories: once a transaction was accepted (`a` is in the
+acceptance log after `ops`), then after ANY further history `ops'` a proof carrying a transaction
+with that hash — in the same or another encoding, with the same or another receipt, for the same
+or another message — is not accepted. -/
+theorem used_tx_never_accepted_again (ops ops' : List Op) (a : Nat × Nat)
+    (ha : a ∈ (run {} ops).accepted) (id : Nat) (q : TxProof) (hq : q.hash = a.2) :
+    (attest (run (run {} ops) ops') id (.tx q)).2 ≠ .ok := by
+  have h1 : a.2 ∈ (run {} ops).processed := (run_inv ops {} inv_init).accProcessed a ha
+  have h2 := run_processed_mono ops' _ _ h1
+  exact processed_tx_rejected _ id q (by rw [hq]; exact h2)
+
+/-- **committed_tx_never_accepted_again.** The same for every COMMITTED outcome (accepted, failed
+receipt, not verified): the transaction of the winning proof `p` is spent; after any further
+history no proof `q` of the same transaction (any encoding / receipt) is accepted. -/
+theorem committed_tx_never_accepted_again (s : St) (id : Nat) (p q : TxProof) (hq : q.hash = p.hash)
+    (h : (attest s id (.tx p)).2 = .ok ∨ (attest s id (.tx p)).2 = .txFailed ∨
+         (attest s id (.tx p)).2 = .notVerified)
+    (ops' : List Op) (id' : Nat) :
+    (attest (run (attest s id (.tx p)).1 ops') id' (.tx q)).2 ≠ .ok := by
+  have h1 := marks_transaction s id p h
+  have h2 := run_processed_mono ops' _ _ h1
+  exact processed_tx_rejected _ id' q (by rw [hq]; exact h2)
+
+/-- **used_tx_never_wins_again.** … and in terms of the vote: if evidence for a later message is
+accepted, the winning proof's transaction is none of the transactions accepted before. -/
+theorem used_tx_never_wins_again (ops ops' : List Op) (id : Nat) (snap : Libcons.Snapshot)
+    (evs : List EvidenceV) (h : (attestEv (run (run {} ops) ops') id snap evs).2 = .ok) :
+    ∃ p, winnerOf snap evs = .tx p ∧ p.hash ∉ (run {} ops).accepted.map (·.2) := by
+  unfold attestEv at h
+  obtain ⟨p, hw, -⟩ := accept_implies_success_receipt _ id _ h
+  refine ⟨p, hw, ?_⟩
+  intro hm
+  rw [List.mem_map] at hm
+  obtain ⟨a, ha, e⟩ := hm
+  rw [hw] at h
+  exact used_tx_never_accepted_again ops ops' a ha id p e.symm h
+
+/-- **up_accept_iff_bytecode_then_ctor.** C07 first sentence for a compass upload: the call data is
+accepted iff it EQUALS the bytecode followed by the constructor input — the whole of it. -/
+theorem up_accept_iff_bytecode_then_ctor (m : QMsg) (bc ctor : Bytes) (cid : Nat)
+    (ha : m.action = .up bc ctor cid) (data : Bytes) :
+    verifyAgainstTx m data = .ok ↔ data = bc ++ ctor := by
+  unfold verifyAgainstTx
+  simp only [ha, isUp, ↓reduceIte, upData_up]
+  constructor
+  · intro h
+    split at h
+    · assumption
+    · cases h
+  · intro h
+    simp [h]
+
+/-- **up_trailing_bytes_rejected.** Nothing may follow the expected call data: a deployment
+transaction whose input is the message's encoding followed by at least one more byte (e.g. other
+constructor arguments appended to the bare bytecode of a message WITHOUT constructor input) does
+not verify. -/
+theorem up_trailing_bytes_rejected (m : QMsg) (bc ctor : Bytes) (cid : Nat)
+    (ha : m.action = .up bc ctor cid) (extra : Bytes) (he : extra ≠ []) :
+    verifyAgainstTx m (bc ++ ctor ++ extra) = .notVerified := by
+  have hne : verifyAgainstTx m (bc ++ ctor ++ extra) ≠ .ok := by
+    intro h
+    have := (up_accept_iff_bytecode_then_ctor m bc ctor cid ha _).1 h
+    have hl := congrArg List.length this
+    simp only [List.length_append] at hl
+    have : extra.length = 0 := by omega
+    exact he (List.eq_nil_of_length_eq_zero this)
+  cases h : verifyAgainstTx m (bc ++ ctor ++ extra) with
+  | ok => exact absurd h hne
+  | notVerified => rfl
+
+/-- **up_bare_bytecode_nothing_follows.** The boundary shape: a message without constructor input
+is delivered by the bare bytecode only. -/
+theorem up_bare_bytecode_nothing_follows (m : QMsg) (bc : Bytes) (cid : Nat)
+    (ha : m.action = .up bc [] cid) (data : Bytes) :
+    verifyAgainstTx m data = .ok ↔ data = bc := by
+  rw [up_accept_iff_bytecode_then_ctor m bc [] cid ha data, List.append_nil]
+
+/-- **up_proper_prefix_rejected.** … and nothing may be missing: a proper prefix of the expected
+call data (the bare bytecode of a message WITH constructor input, a truncated argument block) does
+not verify. -/
+theorem up_proper_prefix_rejected (m : QMsg) (bc ctor : Bytes) (cid : Nat)
+    (ha : m.action = .up bc ctor cid) (data rest : Bytes) (hd : data ++ rest = bc ++ ctor)
+    (hr : rest ≠ []) : verifyAgainstTx m data = .notVerified := by
+  have hne : verifyAgainstTx m data ≠ .ok := by
+    intro h
+    have h1 := (up_accept_iff_bytecode_then_ctor m bc ctor cid ha _).1 h
+    rw [← h1] at hd
+    have hl := congrArg List.length hd
+    simp only [List.length_append] at hl
+    have : rest.length = 0 := by omega
+    exact hr (List.eq_nil_of_length_eq_zero this)
+  cases h : verifyAgainstTx m data with
+  | ok => exact absurd h hne
+  | notVerified => rfl
+
+/-- **up_other_calldata_no_effects.** Router level: for a stored compass upload, evidence whose
+winning transaction carries anything but `bytecode ++ constructor input` is not accepted, hence
+(`effects_only_on_accept`) no contract is recorded or activated, no snapshot goes live and no
+handover is scheduled. -/
+theorem up_other_calldata_no_effects (s : St) (id : Nat) (m : QMsg) (bc ctor : Bytes) (cid : Nat)
+    (hm : findMsg s.queue id = some m) (ha : m.action = .up bc ctor cid) (p : TxProof)
+    (hd : p.data ≠ bc ++ ctor) :
+    (attest s id (.tx p)).2 ≠ .ok ∧ (attest s id (.tx p)).1.effects = s.effects ∧
+    (attest s id (.tx p)).1.chain = s.chain := by
+  have hne : (attest s id (.tx p)).2 ≠ .ok := by
+    intro h
+    obtain ⟨m', p', hm', hw, hex⟩ := accept_implies_exact_calldata s id _ h
+    rw [hm] at hm'
+    injection hm' with hm'
+    subst hm'
+    injection hw with hw
+    subst hw
+    exact hd ((up_accept_iff_bytecode_then_ctor m bc ctor cid ha _).1 (exact_verify_ok m _ hex))
+  have := effects_only_on_accept s id (.tx p) hne
+  exact ⟨hne, this.1, this.2.1⟩
+
 /-! ## non-vacuity -/
 
 def exVs : GoValset := { validators := [[48, 120, 97, 97]], powers := [4294967296], valsetId := 3 }
@@ -876,6 +1035,41 @@ example : (attestEv exS 9 exSnap [(4, .tx exFail), (1, .tx exP), (2, .tx exP), (
   decide
 set_option maxRecDepth 100000 in
 example : (attestEv exS 9 exSnap [(1, .tx exP), (2, .tx { exP with variant := 1 }), (3, .tx exP)]).2 = .noop := by
+  decide
+
+-- the same transaction (hash 77) reported in the EIP-4844 network form (enc 1) wins for message 9 …
+def exPNet : TxProof := { exP with enc := 1 }
+def exM2 : QMsg := { exM with id := 10, action := .slc { exF with id := 10 } }
+def exS2 : St := { queue := [exM, exM2], nextId := 10 }
+set_option maxRecDepth 100000 in
+example : (attestEv exS2 9 exSnap [(1, .tx exPNet), (2, .tx exPNet), (3, .tx exPNet)]).2 = .ok := by decide
+-- … and is spent: presented again in the canonical encoding (or any other) it is refused
+set_option maxRecDepth 100000 in
+example : (attestEv (attestEv exS2 9 exSnap [(1, .tx exPNet), (2, .tx exPNet), (3, .tx exPNet)]).1 10 exSnap
+    [(1, .tx exP), (2, .tx exP), (3, .tx exP)]).2 = .alreadyProcessed := by decide
+set_option maxRecDepth 100000 in
+example : (attestEv (attestEv exS2 9 exSnap [(1, .tx exPNet), (2, .tx exPNet), (3, .tx exPNet)]).1 10 exSnap
+    [(1, .tx { exP with enc := 2 }), (2, .tx { exP with enc := 2 }), (3, .tx { exP with enc := 2 })]).2
+      = .alreadyProcessed := by decide
+-- validators that report the same transaction in different encodings do not form one group
+set_option maxRecDepth 100000 in
+example : (attestEv exS2 9 exSnap [(1, .tx exPNet), (2, .tx exPNet), (3, .tx exP), (4, .tx exP)]).2 = .noop := by
+  decide
+
+-- compass upload WITHOUT constructor input: only the bare bytecode is its encoding
+def exUp : QMsg := { id := 4, action := .up [0x60, 0x02, 0x11] [] 2, valset := exVs, sigs := [] }
+def exUpS : St :=
+  { queue := [exUp], nextId := 4,
+    chain := { deployments := [(2, .inFlight)], activeContract := 1, hasSnapshot := true, snapshots := [1],
+               currentSnapshot := 1 } }
+example : (attest exUpS 4 (.tx { exP with data := [0x60, 0x02, 0x11] })).2 = .ok := by decide
+example : (attest exUpS 4 (.tx { exP with data := [0x60, 0x02, 0x11, 0xaa, 0xbb] })).2 = .notVerified := by decide
+example : (attest exUpS 4 (.tx { exP with data := [0x60, 0x02] })).2 = .notVerified := by decide
+-- … and WITH constructor input the bare bytecode is not
+def exUpC : QMsg := { exUp with action := .up [0x60, 0x02, 0x11] [0xaa, 0xbb] 2 }
+example : (attest { exUpS with queue := [exUpC] } 4 (.tx { exP with data := [0x60, 0x02, 0x11] })).2 = .notVerified := by
+  decide
+example : (attest { exUpS with queue := [exUpC] } 4 (.tx { exP with data := [0x60, 0x02, 0x11, 0xaa, 0xbb] })).2 = .ok := by
   decide
 
 end Paloma.Attest
